@@ -1209,6 +1209,9 @@ class RouteBuilderValidator(Validator[list[Any]]):
         # Parse prefix if present (for INET-family routes)
         if self.schema.prefix_parser:
             ipmask = self.schema.prefix_parser(tokeniser)
+            if ipmask.afi != self.afi:
+                # the octets of a prefix of the other family would be announced as a prefix of this one
+                raise ValueError(f'{ipmask} is not an {self.afi} prefix')
             settings.cidr = CIDR.create_cidr(ipmask.pack_ip(), ipmask.mask)
             settings.afi = self.afi
             settings.safi = self.safi
